@@ -193,6 +193,8 @@ def rule_variants(t):
 
 
 def schema_variants(t):
+    if t[0] != "schema":
+        return
     _, refs = t
     for i in range(len(refs)):
         yield ("schema", refs[:i] + refs[i + 1 :])
